@@ -265,6 +265,8 @@ def _mut_field_kwargs(field):
     attrs = dict(field['attrs'])
     if field['kind'] in REL_KINDS:
         attrs['related_model'] = field['to']
+    if field['kind'] == 'OneToOne':
+        attrs['unique'] = True       # implied by the field class
     for k in sorted(attrs):
         args.append('%s=%s' % (k, pyval(attrs[k])))
     return args
@@ -674,3 +676,25 @@ def validate_state(state):
                     raise SpecError('duplicate constraint name')
                 names.add(c['name'])
     return True
+
+
+def normalised_models(models):
+    """Model specs with attributes stated at their default value dropped
+    (null=False, unique=False, db_index=False on non-relations ...): two
+    spec lists describing the same Django models compare equal."""
+    out = copy.deepcopy(models)
+    for m in out:
+        for f in m['fields']:
+            a = f['attrs']
+            for k, dflt in (('null', False), ('unique', False),
+                            ('db_column', None), ('db_table', None)):
+                if k in a and a[k] == dflt:
+                    del a[k]
+            if 'db_index' in a and a['db_index'] == (f['kind'] in FK_KINDS):
+                del a['db_index']
+        meta = m.get('meta') or {}
+        for k in list(meta):
+            if not meta[k]:
+                del meta[k]
+        m['meta'] = meta
+    return out
